@@ -543,3 +543,24 @@ impl<'g, T> Pointer for WeakSnapshot<'g, T> {
         Pointer::fmt(&self.ptr, f)
     }
 }
+
+/// Introspection for the verification harness.
+#[cfg(circ_verif)]
+pub mod verif_shim_weak {
+    use super::*;
+    use crate::utils::verif_shim::count_word;
+
+    pub fn weak_word<T>(p: &Weak<T>) -> usize {
+        unsafe { core::mem::transmute_copy(&p.ptr) }
+    }
+    pub fn weak_snapshot_word<T>(p: WeakSnapshot<'_, T>) -> usize {
+        unsafe { core::mem::transmute_copy(&p.ptr) }
+    }
+    pub fn atomic_weak_word<T>(p: &AtomicWeak<T>) -> usize {
+        unsafe { core::mem::transmute_copy(&p.link.load(Ordering::SeqCst)) }
+    }
+    /// The count word of the block `p` points to (`p` must be non-null and allocated).
+    pub fn weak_count_word<T>(p: &Weak<T>) -> u64 {
+        count_word(p.ptr.as_raw())
+    }
+}
